@@ -13,7 +13,7 @@ TECHNIQUE = "explicit enumeration of all event histories (execute / check-condit
 RULE = ("all sequences of up to D events (D=5 quick, 6 thorough) over {execute GOOD, execute CHECK CONDITION, replug (node replaced by a new "
         "inode), unplug, sabotage (next close() of the live handle fails with EBADF), open-fault (the next open() of the device path fails once with EACCES)}, each followed by every closing event {none, close(), "
         "with-block normal exit, with-block exit by exception, SCSI facade with-block exit, exit of a facade that was used for and left another device before}, x replug detection {on, off} x {read-only, "
-        "read-write}; histories one event shorter also with the device path being a symbolic link to the node that is replaced, with the node being a character special file replaced by one of the same device number, and with the path being a link re-pointed to a node of another name while the old node stays (device object from init_device); histories with an unplug also with the node vanishing as ELOOP (self-referencing link) and ENOTDIR (its directory replaced by a file); histories with a command also with every command executed with en_raw_sense=True (the ATA PASS-THROUGH path); histories without open-fault also over a class derived from SCSIDevice that overrides open() (os.open + os.fdopen, _file and _ino set as the inherited open() does); an asynchronous KeyboardInterrupt at every source line of one execute() after 6 short prefixes (node left alone / replaced / removed and replaced ...): passed on, the next execute uses one handle to the node now at the path and leaves exactly that handle open; plus ISCSIDevice close/with/disconnect histories. states = distinct (reference-model state, observed handle set) "
+        "read-write}; histories one event shorter also with the device path being a symbolic link to the node that is replaced, with the node being a character special file replaced by one of the same device number, and with the path being a link re-pointed to a node of another name while the old node stays (device object from init_device); histories with an unplug also with the node vanishing as ELOOP (self-referencing link) and ENOTDIR (its directory replaced by a file); histories with a command also with every command executed with en_raw_sense=True (the ATA PASS-THROUGH path); histories without open-fault also over a class derived from SCSIDevice that overrides open() (os.open + os.fdopen, _file and _ino set as the inherited open() does); a second execute() run to completion between two source lines of a first one, at every line (same-thread re-entrancy: signal handler, finalizer, another thread scheduled in between), after 4 prefixes: no command through a stale handle, one handle open afterwards; an asynchronous KeyboardInterrupt at every source line of one execute() after 6 short prefixes (node left alone / replaced / removed and replaced ...): passed on, the next execute uses one handle to the node now at the path and leaves exactly that handle open; plus ISCSIDevice close/with/disconnect histories. states = distinct (reference-model state, observed handle set) "
         "pairs; transitions = events executed on the real device. Non-trivial = history contains replug, unplug or sabotage.")
 ASSUMPTIONS = [
     "device nodes are real files under /dev/shm/pyscsi-verif-<pid>/ (real inodes, real open/stat/close); replug = rename of a new file over the path, old inode kept alive by a hard link so inode numbers are never recycled",
@@ -40,6 +40,7 @@ def partitions(tier):
                 parts.append(["sg", detect, rw, e1])
     parts.append(["iscsi"])
     parts.append(["interrupt"])
+    parts.append(["reentrant"])
     return parts
 
 
@@ -377,6 +378,106 @@ def run_interrupt(detect, rw, pre, acc=None, only=None):
         k += 1
 
 
+def run_reentrant(detect, rw, pre, acc=None, only=None):
+    """same-thread re-entrancy on ONE device (a signal handler, a finalizer, or another thread scheduled in between): a second execute()
+    runs to completion between two source lines of a first execute(), at every line in turn, the node having been replaced before (or
+    not): every command that reaches the binding goes through a handle to the node now at the path (detection on) / the original handle
+    (detection off), and afterwards exactly one handle is open"""
+    import sys
+    install.ensure()
+    from pyscsi.pyscsi.scsi_cdb_testunitready import TestUnitReady
+    from pyscsi.pyscsi.scsi_device import SCSIDevice
+    import pyscsi.pyscsi.scsi_device as devmod
+    pre_path = os.path.dirname(os.path.dirname(devmod.__file__)) + os.sep
+    out = []
+    k = 0 if only is None else only
+    while True:
+        seen = []
+        node = nodes.Node(lambda g: Target())
+
+        def hook(file, st, cdb, dout, din):
+            try:
+                cur = os.stat(node.path).st_ino
+            except OSError:
+                cur = None
+            seen.append((st.st_ino, cur))
+        registry.sgio_hooks.append(hook)
+        dev = None
+        try:
+            dev = SCSIDevice(node.path, rw, detect)
+            for ev in pre:
+                if ev == "r":
+                    node.plug()
+                elif ev == "x":
+                    dev.execute(TestUnitReady(dev.opcodes.TEST_UNIT_READY))
+            state = {"n": 0, "fired": None, "inner": None}
+            n0 = len(seen)
+
+            def tracer(frame, event, arg):
+                if not frame.f_code.co_filename.startswith(pre_path):
+                    return None
+                return line_tracer
+
+            def line_tracer(frame, event, arg):
+                if event == "line" and state["fired"] is None:
+                    if state["n"] == k:
+                        state["fired"] = "%s:%d" % (os.path.basename(frame.f_code.co_filename), frame.f_lineno)
+                        sys.settrace(None)
+                        try:
+                            dev.execute(TestUnitReady(dev.opcodes.TEST_UNIT_READY))
+                            state["inner"] = "returned"
+                        except Exception as e:   # noqa: BLE001
+                            state["inner"] = "raised %s: %s" % (type(e).__name__, e)
+                        finally:
+                            sys.settrace(tracer)
+                    state["n"] += 1
+                return line_tracer
+            sys.settrace(tracer)
+            try:
+                try:
+                    dev.execute(TestUnitReady(dev.opcodes.TEST_UNIT_READY))
+                    outer = "returned"
+                except Exception as e:   # noqa: BLE001
+                    outer = "raised %s: %s" % (type(e).__name__, e)
+            finally:
+                sys.settrace(None)
+            if state["fired"] is None:
+                return out, k
+            if acc is not None:
+                acc.transitions += 2
+            where = ("execute after %r (detect=%s, %s) with a second execute run to completion at its library line #%d (%s)"
+                     % (pre, detect, "read-write" if rw else "read-only", k, state["fired"]))
+            want_gen = node.generation if detect else 1
+            for used, cur in seen[n0:]:
+                if node.generation_of(used) != want_gen:
+                    out.append(("reentrant/stale_handle_used", "%s: a command went through the handle of generation %s, the node at the path is generation %s"
+                                % (where, node.generation_of(used), node.generation)))
+                    break
+            if (outer, state["inner"]) != ("returned", "returned") or len(seen) - n0 != 2:
+                out.append(("reentrant/outcome", "%s: outer %s, inner %s, %d submissions" % (where, outer, state["inner"], len(seen) - n0)))
+            import gc
+            gc.collect()
+            hs = [g for _, g in node.open_handles()]
+            if hs != [want_gen]:
+                out.append(("reentrant/handle_population", "%s: afterwards the open handles (by generation) are %r, expected [%d]" % (where, hs, want_gen)))
+        finally:
+            registry.sgio_hooks.remove(hook)
+            for fd, _ in node.open_handles():
+                try:
+                    os.close(fd)
+                except OSError:
+                    pass
+            if dev is not None and getattr(dev, "_file", None) is not None:
+                try:
+                    dev._file.close()
+                except Exception:   # noqa: BLE001
+                    pass
+            node.destroy()
+        if out or only is not None:
+            return out, k + 1
+        k += 1
+
+
 def _oc(oc):
     return "returned" if oc[0] == "ret" else "raised %s(%s)" % (type(oc[1]).__name__, oc[1])
 
@@ -460,6 +561,8 @@ def run_iscsi(seq, obs=None):
 def run_case(case, obs=None):
     if case[0] == "interrupt":
         return run_interrupt(case[1], case[2], case[3], None, case[4])[0]
+    if case[0] == "reentrant":
+        return run_reentrant(case[1], case[2], case[3], None, case[4])[0]
     if case[0] == "sg":
         _, detect, rw, events, closer = case[:5]
         kind = case[5] if len(case) > 5 else 0
@@ -493,6 +596,19 @@ def run_partition(part, tier, seed):
         acc.transitions += nev + 1
         acc.traces += 1
 
+    if part[0] == "reentrant":
+        for detect in (True, False):
+            for rw in (False, True):
+                for pre in ("", "r", "xr", "rr"):
+                    v, npoints = run_reentrant(detect, rw, pre, acc)
+                    acc.add("reentrancy_points", npoints)
+                    acc.traces += npoints
+                    case = ["reentrant", detect, rw, pre, npoints - 1 if v else None]
+                    acc.case(case, nontrivial=True, key=repr(case[:4]))
+                    for k, w in v:
+                        acc.violation(k, w, case)
+                    acc.outcome(("re", detect, rw, pre, npoints, tuple(k for k, _ in v)))
+        return acc
     if part[0] == "interrupt":
         for detect in (True, False):
             for rw in (False, True):
